@@ -14,7 +14,9 @@ import (
 // SeeThrough strips conversions that do not change identity and resolves
 // loads of single-store local cells (the spill pattern `t0 = new T; *t0 = p`
 // that go/ssa produces for variables captured by deferred closures).
-func SeeThrough(v ssa.Value) ssa.Value {
+func SeeThrough(v ssa.Value) ssa.Value { return seeThrough(v, nil) }
+
+func seeThrough(v ssa.Value, seen map[*ssa.Phi]bool) ssa.Value {
 	for i := 0; i < 32; i++ {
 		switch x := v.(type) {
 		case *ssa.ChangeType:
@@ -34,10 +36,17 @@ func SeeThrough(v ssa.Value) ssa.Value {
 			return v
 		case *ssa.Phi:
 			// phi of identical values
+			if seen[x] {
+				return v
+			}
+			if seen == nil {
+				seen = map[*ssa.Phi]bool{}
+			}
+			seen[x] = true
 			var one ssa.Value
 			same := true
 			for _, e := range x.Edges {
-				e = SeeThrough(e)
+				e = seeThrough(e, seen)
 				if e == x {
 					continue
 				}
